@@ -23,6 +23,13 @@ Theorem C15_nothing_deferred : forall c a, In a (fe_plan c) -> c_who a = CallerP
 Proof. exact C15_no_deferred_proof. Qed.
 Print Assumptions C15_nothing_deferred.
 
+(* each chunk applies the functor VALUE it captured when it was scheduled (version 0 = the caller's functor at the
+   time of the call): with wait=false the caller may change or destroy its functor object after for_each_n returned
+   and before the queued chunks run; no application goes through that later state *)
+Theorem C15_functor_captured_at_schedule_time : forall c a, In a (fe_plan c) -> c_state a = 0.
+Proof. exact C15_functor_value_proof. Qed.
+Print Assumptions C15_functor_captured_at_schedule_time.
+
 (* the chunk count handed to staticChunkSize is never zero (the former division by zero) and respects maxThreads *)
 Theorem C15_thread_count : forall c, 1 <= fe_numThreads c <= Z.max 1 (wrap_s 32 (fe_maxThreads c)).
 Proof. exact C15_thread_count_proof. Qed.
